@@ -30,8 +30,8 @@ theorem limit_iterable_sized_src_eq (iterable : List Value) (limit_or_engine : I
         | .error _ => .error (.other 2) := by
   simp only [SrcLimits.limit_iterable_sized, limitSized_limitOf]
   by_cases h : 0 ≤ limit_or_engine ∧ limit_or_engine < (iterable.length : Int)
-  · rw [if_pos h, if_pos h]
-  · rw [if_neg h, if_neg h]
+  · simp [h]
+  · simp [h]
 
 /-! ### `limit_memory_usage` -/
 
